@@ -712,7 +712,7 @@ variable [Add α] [Sub α] [Mul α] [LT α] [LE α] [DecidableLT α] [DecidableL
 
 /-- the calls that only observe: everything except `set`, `del` and the three reconstructions -/
 def Op.observes : Op α → Bool
-  | .set _ _ | .del _ _ | .delm _ _ | .reprof | .replayers | .gam => false
+  | .set _ _ | .del _ _ | .delm _ _ | .poke _ _ _ | .reprof | .replayers | .gam => false
   | _ => true
 
 /-- **Observing calls leave the game as it is**: `get`, `payoff_vector`, `best_response`,
@@ -751,7 +751,7 @@ theorem nums_eq (g : Game α) (nums : List Nat) (hg : g.WF nums) : g.nums = nums
     reconstructions (`NormalFormGame(g.payoff_profile_array)`, `NormalFormGame(players)`,
     `from_gam(to_gam(g))`) -/
 def Op.keeps : Op α → Bool
-  | .set _ _ | .del _ _ | .delm _ _ => false
+  | .set _ _ | .del _ _ | .delm _ _ | .poke _ _ _ => false
   | _ => true
 
 /-- **Every call except `__setitem__` and `delete_action` returns the same game**: on a
@@ -764,6 +764,7 @@ theorem keeping_ops_keep_state (g : Game α) (nums : List Nat) (op : Op α) (hg 
   | set _ _ => simp [Op.keeps] at h
   | del _ _ => simp [Op.keeps] at h
   | delm _ _ => simp [Op.keeps] at h
+  | poke _ _ _ => simp [Op.keeps] at h
   | reprof => simp only [step, from_profile_array_roundtrip g nums hg hN]
   | replayers => simp only [step, from_players_roundtrip g nums hg]
   | gam => simp only [step, nums_eq g nums hg, gam_roundtrip_tokens g nums hg hN hpos]
@@ -897,6 +898,48 @@ theorem deleteActions_WF (g : Game α) (nums : List Nat) (pidx : Int) (as : List
     · simp only [Game.playerOk, Bool.and_eq_true, bne_iff_ne, ne_eq] at hok0
       exact hok0.2
 
+
+omit [Add α] [Sub α] [Mul α] [LT α] [LE α] [DecidableLT α] [DecidableLE α] in
+theorem pokeItem_player (g : Game α) (i : Nat) (idx : List Nat) (v : α) (j : Nat) (hj : j < g.N) :
+    (g.pokeItem i idx v).player j =
+      if j = i then ⟨(g.player j).shape, (g.player j).data.set (flatIndex (g.player j).shape idx) v⟩
+      else g.player j := by
+  simp [Game.pokeItem, Game.player, List.getD_eq_getElem?_getD, List.getElem?_map, List.getElem?_range hj]
+
+omit [Add α] [Sub α] [Mul α] [LT α] [LE α] [DecidableLT α] [DecidableLE α] in
+/-- an in-place edit of one cell of one player's array keeps the game well formed -/
+theorem pokeItem_WF (g : Game α) (nums : List Nat) (i : Nat) (idx : List Nat) (v : α) (hg : g.WF nums) :
+    (g.pokeItem i idx v).WF nums := by
+  have hN : g.N = nums.length := hg.len
+  refine ⟨by rw [← hg.len]; simp [Game.pokeItem, Game.N], ?_, ?_⟩
+  · intro j hj
+    rw [pokeItem_player g i idx v j (by omega)]
+    split <;> exact hg.shape j hj
+  · intro j hj
+    rw [pokeItem_player g i idx v j (by omega)]
+    split
+    · simp only [List.length_set]; exact hg.size j hj
+    · exact hg.size j hj
+
+omit [Add α] [Sub α] [Mul α] [LT α] [LE α] [DecidableLT α] [DecidableLE α] in
+/-- **an in-place edit is seen by the edited player only, at the edited cell only**: the other
+    players' arrays are untouched (no aliasing between players), and player `i` reads `v` there -/
+theorem pokeItem_views (g : Game α) (nums : List Nat) (i : Nat) (idx : List Nat) (v : α) (hg : g.WF nums)
+    (hi : i < nums.length) (hb : inBounds (g.player i).shape idx = true) :
+    ((g.pokeItem i idx v).player i).get idx = v ∧
+    ∀ j, j < nums.length → j ≠ i → (g.pokeItem i idx v).player j = g.player j := by
+  have hN : g.N = nums.length := hg.len
+  constructor
+  · rw [pokeItem_player g i idx v i (by omega), if_pos rfl]
+    unfold Arr.get
+    have hlt := flatIndex_lt _ _ hb
+    rw [← hg.size i hi] at hlt
+    simp only
+    rw [List.getD_eq_getElem?_getD, List.getElem?_set_self hlt]
+    rfl
+  · intro j hj hne
+    rw [pokeItem_player g i idx v j (by omega), if_neg hne]
+
 /-- **One call keeps the game well formed** (same number of players, every player keeps at
     least one action), whatever the call and its arguments — valid, malformed or refused. -/
 theorem step_WF (g : Game α) (nums : List Nat) (op : Op α) (hg : g.WF nums)
@@ -939,6 +982,11 @@ theorem step_WF (g : Game α) (nums : List Nat) (op : Op α) (hg : g.WF nums)
           unfold Game.normAxis at hax
           rw [if_neg (by omega), if_neg (by omega)] at hax
           simp at hax
+  | poke i idx v =>
+    simp only [step]
+    split
+    · exact ⟨nums, pokeItem_WF g nums i idx v hg, rfl, hpos⟩
+    · exact ⟨nums, hg, rfl, hpos⟩
   | delm pidx actions =>
     simp only [step]
     repeat' split
